@@ -329,9 +329,13 @@ func (b *argBuilder) graph(log hclog.Logger, g *graph.Graph, root graph.Vertex) 
 		}
 	}
 
-	// If we have converters, add those.
-	for _, f := range b.convs {
-		f.graph(g, root, true)
+	// If we have converters, add those. The graph holds one function per
+	// function type and keeps the first one it is given, so we add them last
+	// to first: of several converters with the same function type the last
+	// one given wins, like for every other option, and a converter given to
+	// Call overrides a default one of the Func.
+	for i := len(b.convs) - 1; i >= 0; i-- {
+		b.convs[i].graph(g, root, true)
 	}
 
 	// If we have converter generators, run those.
